@@ -367,6 +367,43 @@ def runVersions (j : Json) : P Json := do
     pure (Json.mkObj [("load", Json.bool (loadGate d tp b)),
       ("spec_ok", Json.bool (Decidable.decide (3 ≤ d) && Decidable.decide (d ≤ 6) && Decidable.decide (specVersion b ≤ d) && (!tp || Decidable.decide (5 ≤ d))))])
 
+def runSymbols (j : Json) : P Json := do
+  let pool ← parsePool (← field j "pool")
+  let kind ← (← field j "kind").getStr?
+  if kind == "redeclare" then
+    let base ← parseBlock (← field j "base_block")
+    let t := TokSyms.build pool base
+    let d ← field j "declared"
+    let syms ← (← getArr (← field d "syms")).mapM fun s => do pure (← s.getStr?).toUTF8.toList
+    let keys ← (← getArr (← field d "keys")).mapM getNat
+    let tp ← (← field d "tp").getBool?
+    let t' : TokSyms := { t with blocks := t.blocks ++ [⟨syms, keys, tp⟩] }
+    return Json.mkObj [("load", Json.bool t'.reload.isSome)]
+  let ops ← getArr (← field j "ops")
+  let strs (l : List Str) : Json := Json.arr (l.map strOut).toArray
+  let nats (l : List Nat) : Json := Json.arr (l.map (fun (n : Nat) => (n : Json))).toArray
+  let rec go (t : Option TokSyms) (ops : List Json) (acc : List Json) : P (List Json) := do
+    match ops with
+    | [] => pure acc
+    | op :: rest =>
+      let name ← (← field op "op").getStr?
+      let t' ← (match name, t with
+        | "build", _ => do pure (TokSyms.build pool (← parseBlock (← field op "block")))
+        | "append", some t => do pure (t.append pool (← parseBlock (← field op "block")))
+        | "append3p", some t => do pure (t.appendThirdParty pool (← parseBlock (← field op "block")))
+        | _, some t => pure t
+        | _, none => throw "operation before build" : P TokSyms)
+      let o := Json.mkObj [
+        ("block_symbols", Json.arr (t'.blocks.map fun d => strs d.syms).toArray),
+        ("block_keys", Json.arr (t'.blocks.map fun d => nats d.keys).toArray),
+        ("third_party", Json.arr (t'.blocks.map fun d => Json.bool d.thirdParty).toArray),
+        ("token_symbols", strs t'.syms), ("token_keys", nats t'.keys),
+        ("reload_ok", Json.bool t'.reload.isSome),
+        ("reload_same", Json.bool (t'.reload == some (t'.syms, t'.keys)))]
+      go (some t') rest (acc ++ [o])
+  let steps ← go none ops []
+  pure (Json.mkObj [("steps", Json.arr steps.toArray)])
+
 def handle (line : String) : String :=
   match Json.parse line with
   | .error e => (Json.mkObj [("driver_error", s!"parse: {e}")]).compress
@@ -385,6 +422,7 @@ def handle (line : String) : String :=
       | "tpv" => runTpv j
       | "tpu" => runTpu j
       | "versions" => runVersions j
+      | "symbols" => runSymbols j
       | _ => throw s!"unknown op {op}"
     match r with
     | .ok o => o.compress
